@@ -713,6 +713,144 @@ impl Sub for AnyMapping {
     }
 }
 
+// ---------------------------------------------------------------------------------------------
+// Bigram files with about 2^16 rows
+
+#[derive(Clone, Debug, Serialize, Deserialize, PartialEq, Eq, Hash)]
+pub struct BigRowsCase {
+    pub rows_right: u32,
+    pub rows_left: u32,
+    /// number of templates (1, 2 or 9)
+    pub k: u8,
+    pub dual: bool,
+    /// every row has its own feature (listed in bigram.cost) instead of seven shared ones
+    pub distinct: bool,
+    pub salt: u16,
+}
+
+pub struct BuildersScale;
+
+impl Sub for BuildersScale {
+    type Case = BigRowsCase;
+    fn name(&self) -> &'static str {
+        "builders_scale"
+    }
+    fn max_shrink_iters(&self) -> u32 {
+        8
+    }
+    fn strategy(&self, _tier: Tier) -> BoxedStrategy<BigRowsCase> {
+        let rows = || prop_oneof![2 => 65_533u32..=65_538, 2 => 1u32..=4];
+        (rows(), rows(), prop_oneof![Just(1u8), Just(2u8), Just(9u8)], any::<bool>(), any::<bool>(), any::<u16>())
+            .prop_map(|(rows_right, rows_left, k, dual, distinct, salt)| {
+                // one large side is enough (time)
+                let rows_left = if rows_right > 1000 { rows_left % 5 + 1 } else { rows_left };
+                BigRowsCase { rows_right, rows_left, k, dual, distinct, salt }
+            })
+            .boxed()
+    }
+    fn rule(&self) -> String {
+        "bigram.right / bigram.left with 65533..65538 rows on one side (ids up to and beyond what a u16 can name) and 1-5 on the other, 1, 2 or 9 templates, shared or per-row features, raw or dual connector; \
+         oracle: the builder returns Ok or Err without panicking; an accepted dictionary reports rows+1 ids, tokenizes the probe sentences (words on the first, middle and last id) without panicking, and \
+         map_connection_ids_from_iter with the reversal of all ids returns Ok or Err without panicking; non-trivial = at least 65535 rows; distinct = hash(case)".into()
+    }
+    fn check(&self, case: &BigRowsCase, ctx: &mut Ctx) -> Result<(), String> {
+        let k = usize::from(case.k);
+        let side = |n: u32, tag: char| -> String {
+            let mut s = String::with_capacity(n as usize * 12);
+            for i in 1..=n {
+                let f = if case.distinct { format!("{tag}{i}") } else { format!("{tag}{}", i % 7) };
+                s.push_str(&format!("{i}\t{}\n", vec![f; k].join(",")));
+            }
+            s
+        };
+        let right = side(case.rows_right, 'r');
+        let left = side(case.rows_left, 'l');
+        let mut cost = String::new();
+        let (big, bt, small, st) = if case.rows_right >= case.rows_left { (case.rows_right, 'r', case.rows_left, 'l') } else { (case.rows_left, 'l', case.rows_right, 'r') };
+        let nfeat = if case.distinct { big } else { 7.min(big) };
+        for i in 0..nfeat {
+            let b = format!("{bt}{}", if case.distinct { i + 1 } else { i });
+            let s = format!("{st}{}", if case.distinct { 1 + i % small } else { i % 7 });
+            let (rf, lf) = if bt == 'r' { (b, s) } else { (s, b) };
+            cost.push_str(&format!("{rf}/{lf}\t{}\n", (i as i32 * 13 + i32::from(case.salt)) % 21 - 10));
+        }
+        // words on the first, a middle and the last id that a u16 can name on each side
+        let last_r = case.rows_right.min(65_535);
+        let last_l = case.rows_left.min(65_535);
+        let lex = format!("a,{},{},1,A\nb,{},{},2,B\nab,1,1,5,AB\n", last_l, last_r, (last_l + 1) / 2, (last_r + 1) / 2);
+        let chardef = "DEFAULT 0 1 0\nSPACE 0 1 0\n0x0020 SPACE\n";
+        let unk = "DEFAULT,0,0,100,*\nSPACE,0,0,10,*\n";
+        let built = guard(|| vibrato::SystemDictionaryBuilder::from_readers_with_bigram_info(lex.as_bytes(), right.as_bytes(), left.as_bytes(), cost.as_bytes(), chardef.as_bytes(), unk.as_bytes(), case.dual))
+            .map_err(|p| format!("builder panicked ({} right rows, {} left rows, K={k}, dual={}): {p}", case.rows_right, case.rows_left, case.dual))?;
+        ctx.eval();
+        match built {
+            Err(_) => {
+                ctx.label("rejected");
+            }
+            Ok(d) => {
+                ctx.label("accepted");
+                let (nl, nr) = (hooks::num_left(&d), hooks::num_right(&d));
+                if (nl, nr) != (case.rows_left as usize + 1, case.rows_right as usize + 1) {
+                    return Err(format!("accepted dictionary reports {nr} right / {nl} left ids for {} / {} rows", case.rows_right, case.rows_left));
+                }
+                // mapping: reversal of every id a u16 can name (valid iff all ids are nameable)
+                let rev = |n: usize| -> Vec<u16> { (1..n.min(65_536)).rev().map(|x| x as u16).collect() };
+                let tokenizer = vibrato::Tokenizer::new(d);
+                let toks = guard(|| {
+                    let mut w = tokenizer.new_worker();
+                    let mut out = vec![];
+                    for s in ["ab", "ba", "a b", "x", "bab"] {
+                        w.reset_sentence(s);
+                        w.tokenize();
+                        out.push((0..w.num_tokens()).map(|i| w.token(i).total_cost()).collect::<Vec<_>>());
+                    }
+                    out
+                })
+                .map_err(|p| format!("accepted dictionary ({nr} right / {nl} left ids, dual={}) panics while tokenizing: {p}", case.dual))?;
+                let d = tokenizer_into_dict(tokenizer, &lex, &right, &left, &cost, chardef, unk, case.dual)?;
+                let mapped = guard(|| d.map_connection_ids_from_iter(rev(nl), rev(nr))).map_err(|p| format!("map_connection_ids_from_iter on {nr} right / {nl} left ids (dual={}): {p}", case.dual))?;
+                ctx.eval();
+                if let Ok(dm) = mapped {
+                    ctx.label("mapping_accepted");
+                    let tk = vibrato::Tokenizer::new(dm);
+                    let toks2 = guard(|| {
+                        let mut w = tk.new_worker();
+                        let mut out = vec![];
+                        for s in ["ab", "ba", "a b", "x", "bab"] {
+                            w.reset_sentence(s);
+                            w.tokenize();
+                            out.push((0..w.num_tokens()).map(|i| w.token(i).total_cost()).collect::<Vec<_>>());
+                        }
+                        out
+                    })
+                    .map_err(|p| format!("mapped dictionary ({nr} right / {nl} left ids, dual={}) panics while tokenizing: {p}", case.dual))?;
+                    if toks2 != toks {
+                        return Err(format!("total costs changed by reversing the ids: {toks:?} vs {toks2:?}"));
+                    }
+                } else {
+                    ctx.label("mapping_rejected");
+                }
+            }
+        }
+        ctx.label_if(case.dual, "dual");
+        ctx.label_if(case.rows_right.max(case.rows_left) >= 65_536, "more_rows_than_u16_ids");
+        if case.rows_right.max(case.rows_left) >= 65_535 {
+            ctx.nontrivial(case);
+        }
+        ctx.sample(|| serde_json::to_value(case).unwrap());
+        Ok(())
+    }
+}
+
+/// The tokenizer owns the dictionary; rebuild it for the mapping step (building is deterministic apart from
+/// the dual connector's template split, which does not matter for "no panic" and equal total costs).
+#[allow(clippy::too_many_arguments)]
+fn tokenizer_into_dict(_t: vibrato::Tokenizer, lex: &str, right: &str, left: &str, cost: &str, chardef: &str, unk: &str, dual: bool) -> Result<vibrato::Dictionary, String> {
+    guard(|| vibrato::SystemDictionaryBuilder::from_readers_with_bigram_info(lex.as_bytes(), right.as_bytes(), left.as_bytes(), cost.as_bytes(), chardef.as_bytes(), unk.as_bytes(), dual))
+        .map_err(|p| format!("second build panicked: {p}"))?
+        .map_err(|e| format!("second build of the same files rejected: {e}"))
+}
+
 pub fn run(opts: &Opts) -> Report {
     let mut rep = Report::new("C10", "exploration");
     rep.assumptions = vec![
@@ -728,9 +866,13 @@ pub fn run(opts: &Opts) -> Report {
     crate::props::committed_replays(&crate::props::c01::Partition { long: false, stress: false }, opts, &mut rep);
     run_sub(&a, opts, opts.tier.pick(60_000, 800_000), &mut rep);
     run_sub(&m, opts, opts.tier.pick(10_000, 150_000), &mut rep);
+    crate::props::committed_replays(&BuildersScale, opts, &mut rep);
+    run_sub(&BuildersScale, opts, opts.tier.pick(32, 400), &mut rep);
     rep
 }
 
 pub fn replay(path: &Path) -> Option<i32> {
-    crate::props::try_strict(&Builders, "C10", path).or_else(|| crate::props::try_strict(&AnyMapping, "C10", path))
+    crate::props::try_strict(&Builders, "C10", path)
+        .or_else(|| crate::props::try_strict(&AnyMapping, "C10", path))
+        .or_else(|| crate::props::try_strict(&BuildersScale, "C10", path))
 }
